@@ -10,7 +10,7 @@
    list of follow-on commands and handler behaviours, and server tables that may
    change before every single dispatch. *)
 From Coq Require Import List ZArith NArith Bool.
-From Cedar Require Import gen.FactsC05 Model.Server Proofs.C05Spec Proofs.C05.
+From Cedar Require Import gen.FactsC05 Model.Server Proofs.C05Spec Proofs.C05 Proofs.C05Fail.
 Import ListNotations.
 
 (* commandLevelSatisfied, over its whole domain (every policy incl. nil, both flags) *)
@@ -70,6 +70,32 @@ Theorem C05_refusal_closes : forall k evs ds e pre c why post,
   post = [] /\ e = EClosedErr /\ invocations ds = invocations pre.
 Proof. exact history_refusal. Qed.
 Print Assumptions C05_refusal_closes.
+
+(* ... and so is a handler that FAILS: if the handler of the n-th command of a connection
+   returns an error or panics, that invocation is the last dispatch attempt of the connection
+   (exactly n+1 attempts, all of them invocations: no further command is run, refused or even
+   looked up), ServeConn ends with an error and Close() -- or, for a panic, is unwound by it
+   (EPanic: ServeConn itself has no recover) -- and in both cases the connection is closed once
+   Server.Serve's per-connection goroutine is done with it. One connection from any cache: *)
+Theorem C05_handler_failure_closes : forall k cn k' ds e n st,
+  serve_conn k cn = (k', (ds, e)) ->
+  nth_error (c_steps cn) n = Some st -> handler_failed (st_ret st) ->
+  n < length (invocations ds) ->
+  length ds = S n /\ length (invocations ds) = S n /\
+  e = fail_end (st_ret st) /\ closed_under_serve e = true.
+Proof. exact serve_conn_handler_failure. Qed.
+Print Assumptions C05_handler_failure_closes.
+
+(* every connection of every history *)
+Theorem C05_handler_failure_closes_history : forall k evs ds e,
+  In (ds, e) (run_history k evs) ->
+  exists cn, In (EConn cn) evs /\
+    forall n st, nth_error (c_steps cn) n = Some st -> handler_failed (st_ret st) ->
+      n < length (invocations ds) ->
+      length ds = S n /\ length (invocations ds) = S n /\
+      e = fail_end (st_ret st) /\ closed_under_serve e = true.
+Proof. exact history_handler_failure. Qed.
+Print Assumptions C05_handler_failure_closes_history.
 
 (* The dispatched commands are exactly a prefix of the commands the client
    asked for, in order: nothing runs that was not requested, nothing is skipped
@@ -159,6 +185,24 @@ Example C05_example_hypotheses_satisfiable :
 Proof.
   split; [constructor|]. split; [repeat constructor|]. split; [constructor|]. vm_compute. reflexivity.
 Qed.
+
+(* C05_handler_failure_closes is not vacuous: the second handler of a kept-alive connection
+   panics although the client had a third command on the wire; two handlers ran, the third
+   command was never dispatched, the panic left ServeConn and Serve closes the connection.
+   With an error return instead, ServeConn itself closes it and reports the error. *)
+Definition ex_fail_conn (r : hret) : conn :=
+  {| c_srv := ex_srv None; c_peer := 1%N; c_first := Some DC_AUTHENTICATE; c_hs := HsFull ex_full;
+     c_steps := [ {| st_ret := HKeepAlive; st_next := Some 1005%Z; st_srv := ex_srv None |};
+                  {| st_ret := r; st_next := Some 1001%Z; st_srv := ex_srv None |};
+                  {| st_ret := HDone; st_next := None; st_srv := ex_srv None |} ] |}.
+Example C05_handler_panic_example :
+  let '(ds, e) := snd (serve_conn [] (ex_fail_conn HPanic)) in
+  map dispatch_cmd ds = [1001%Z; 1005%Z] /\ length (invocations ds) = 2 /\ e = EPanic /\
+  closed_under_serve e = true /\
+  snd (snd (serve_conn [] (ex_fail_conn HErr))) = EClosedErr /\
+  (* the same script with a handler that keeps the connection alive does run the third command *)
+  map dispatch_cmd (fst (snd (serve_conn [] (ex_fail_conn HKeepAlive)))) = [1001%Z; 1005%Z; 1001%Z].
+Proof. vm_compute. repeat split; reflexivity. Qed.
 
 (* The hypothesis "reported = real" of C05_dispatch_real is necessary: with a
    handshake that reports Encryption on a plaintext stream (the behaviour of
